@@ -9,12 +9,15 @@ import sys
 from multiprocessing import Pool
 
 
-def work(args):
+def work(jobs):
     import logging
     logging.disable(logging.CRITICAL)
-    pid, a, k = args
-    mod = importlib.import_module("props." + pid)
-    return mod.run_chunk(a, k)
+    out = []
+    for pid, a, k in jobs:
+        mod = importlib.import_module("props." + pid)
+        n, fails = mod.run_chunk(a, k)
+        out.append((n, fails))
+    return out
 
 
 def main(pid):
@@ -24,15 +27,20 @@ def main(pid):
     inst.tier = "thorough"
     jobs = sorted(set((pid, c[0], c[1]) for c in inst.cases()), key=repr)
     cnt = collections.Counter()
+    mx = collections.Counter()
     ex = {}
     total = 0
     with Pool(16) as p:
-        for n, fails in p.imap_unordered(work, jobs, chunksize=1):
-            total += n
-            for t, w in fails:
-                cnt[t] += 1
-                ex.setdefault(t, w)
-    json.dump({"count": cnt, "ex": ex}, open("/tmp/%scensus.json" % pid, "w"), indent=1)
+        for res in p.imap_unordered(work, [jobs[i::64] for i in range(64)]):
+            for n, fails in res:
+                total += n
+                per = collections.Counter(t for t, _ in fails)
+                for t, c in per.items():
+                    mx[t] = max(mx[t], c)
+                for t, w in fails:
+                    cnt[t] += 1
+                    ex.setdefault(t, w)
+    json.dump({"count": cnt, "ex": ex, "max": mx}, open("/tmp/%scensus.json" % pid, "w"), indent=1)
     g = collections.defaultdict(list)
     for t, c in cnt.items():
         p = t.split(":")
